@@ -256,6 +256,28 @@ pub fn run(rep: &mut Rep) {
             run_case(rep, &c, &mut rng);
         }
     }
+    // (b2) the aaguid is a caller-supplied slice of any length: sweep it across the capacity too
+    for &al in &[0usize, 1, 15, 16, 17, 32, 100, 500, 600, 630, 637, 638, 639, 640, 641, 650, 676, 700, 5000] {
+        for &(idl, kl) in &[(0usize, 0usize), (1, 1), (10, 20), (16, 77), (0, 77)] {
+            for ext in [None, Some(1u64), Some((1u64 << crate::mon::c03::N_MC_EXT) - 1)] {
+                case += 1;
+                if !rep.mine(case) {
+                    continue;
+                }
+                let mut rng = Rng::derive(seed, "c07b2", case);
+                let c = Case {
+                    hash: [0x61u8; 32],
+                    bits4: (case % 16) as u8,
+                    count: rng.u64() as u32,
+                    attested: Some((rng.bytes(al), rng.bytes(idl), rng.bytes(kl))),
+                    ext_mask: ext,
+                };
+                if rep.begin("attested/aaguid-length-sweep") {
+                    run_case(rep, &c, &mut rng);
+                }
+            }
+        }
+    }
     // (c) all 16 flag combinations x counters x every subset of extension outputs, with and
     //     without attested data, independent of the AT/ED flags
     for bits4 in 0..16u8 {
